@@ -73,7 +73,7 @@ def discharge(obls, timeout=20, procs=16, seed=0, on_model=None, use_cvc5=True, 
         if z3.is_true(o.goal) and o.expect == 'unsat':
             results[i] = Result(o.id, 'unsat', 'syntactic', 0.0)
         else:
-            todo.append((i, timeout, 'z3'))
+            todo.append((i, timeout if o.expect == 'unsat' else min(timeout, 4), 'z3'))
     running = {}
 
     def launch(i, tmo, backend):
@@ -141,7 +141,9 @@ def discharge(obls, timeout=20, procs=16, seed=0, on_model=None, use_cvc5=True, 
                     prev = results[i]
                     results[i] = Result(o.id, 'unknown', be, secs + (prev.secs if prev else 0), None, out.get('reason', ''))
                     # ladder: z3 -> cvc5 -> z3 (long)
-                    if be == 'z3' and tmo == timeout and use_cvc5:
+                    if o.expect != 'unsat':
+                        pass
+                    elif be == 'z3' and tmo == timeout and use_cvc5:
                         retries.append((i, timeout, 'cvc5'))
                     elif (be == 'cvc5' or (be == 'z3' and tmo == timeout and not use_cvc5)) and retry_timeout:
                         retries.append((i, retry_timeout, 'z3'))
